@@ -117,6 +117,10 @@ def calendar_grid(rng, tier):
         for m in (0, 1, 2, 3, 4, 6, 9, 11, 12, 13, 255):
             for d in (0, 1, 28, 29, 30, 31, 32, 255):
                 out.append((P("ndate"), _vu(y & 0xffffffff) + bytes([m, d])))
+    for y in G.LEAP_YEARS:                       # the end of February in years of every leap-year class, both sides of 0
+        for d in (28, 29, 30):
+            out.append((P("ndate"), _vu(y & 0xffffffff) + bytes([2, d])))
+            out.append((P("ndt"), _vu(y & 0xffffffff) + bytes([2, d, 12, 0, 0]) + _vu(0)))
     nss = [0, 999_999_999, 1_000_000_000, 1_999_999_999, 2_000_000_000, (1 << 32) - 1]
     for h in (0, 23, 24, 255):
         for mi in (0, 59, 60):
